@@ -104,6 +104,7 @@ class Rel:
         self.id = cid
         self.n = 0
         self.margin = 0.0
+        self.margin_at = None
         self.viol: list[dict] = []
         self.tags: list[str] = []
         self.detail: dict = {}
@@ -122,7 +123,9 @@ class Rel:
             self.viol.append({"relation": name, "detail": {"got": got, "want": want, "err": "nan", **extra}})
             return False
         r = err / tol if tol > 0 else (0.0 if err == 0 else float("inf"))
-        self.margin = max(self.margin, r)
+        if err <= tol and r > self.margin:
+            self.margin = r  # margin = how close PASSING relations come to their tolerance
+            self.margin_at = name
         if err > tol:
             self.viol.append({"relation": name, "detail": {"got": got, "want": want, "err": err, "tol": tol, **extra}})
             return False
@@ -149,6 +152,7 @@ class Rel:
             "tags": self.tags,
             "relations": self.n,
             "margin": self.margin,
+            "margin_at": self.margin_at,
             "nontrivial": nontrivial,
             "detail": self.detail,
         }
